@@ -32,6 +32,8 @@ for f in sorted(glob.glob(f"{VERIF}/selftest/mutants/*.diff")):
     items.append((name, prop, f, "calibration"))
 for d in sorted(glob.glob(f"{VERIF}/seeded/*/")):
     m = json.load(open(d + "meta.json"))
+    if m.get("neutralised"):
+        continue
     items.append((m["id"], m["breaks_property"], d + "patch.diff", "seeded"))
 out_path = f"{VERIF}/selftest/sensitivity.json"
 results = json.load(open(out_path)) if os.path.exists(out_path) else {}
